@@ -16,7 +16,7 @@ Fixpoint fshape (e : pyexpr) {struct e} : bool :=
   let d := fshape in
   let dopt := fun (o : option pyexpr) => match o with Some c => d c | None => true end in
   match e with
-  | PName _ | PNum _ _ | PConst _ | PStr _ _ _ => true
+  | PName _ _ | PNum _ _ | PConst _ | PStr _ _ _ => true
   | PParsed p => d p
   | PJoinedStr vs => forallb is_fpart vs && forallb d vs
   | PAttribute v _ | PUnaryOp _ v | PKeyword _ v | PStarred v | PYieldFrom v | PAwait v => d v
@@ -87,7 +87,7 @@ Ltac kidc IH :=
 Theorem clean_all : forall e, CleanP e.
 Proof.
   apply pyexpr_ind'.
-  - intros id. cstart. reflexivity.
+  - intros id loc. cstart. reflexivity.
   - intros i r. cstart. reflexivity.
   - intros r. cstart. reflexivity.
   - (* PStr *) intros r raw p _. cstart. destruct Hf as [Hf|Hf]; [rewrite Hf; reflexivity|discriminate Hf].
@@ -126,8 +126,9 @@ Proof.
     rewrite (clean_list _ KParam po IHpo), (clean_list _ KParam pk IHpk), (clean_list _ KParam ko IHko); try assumption;
       try (intros c Hc1 Hc2 Hc3 Hc; apply (Hc KParam); try assumption; left; assumption).
     cbn [app]. kidc IHb. reflexivity.
-  - (* PParam *) intros n dd IH. cstart. destruct dd as [dd|]; [|reflexivity]. simpl in *. rewrite ?need_all. cbn [app].
-    apply (IH KExpr); try assumption. left. reflexivity.
+  - (* PParam *) intros n dd IH. cstart. destruct Hf as [Hf|Hf]; [|discriminate Hf].
+    destruct dd as [dd|]; [|reflexivity]. simpl in *. rewrite ?need_all. cbn [app].
+    apply (IH KExpr); try assumption. left. assumption.
   - (* PNamedExpr *) intros t v IHt IHv. cstart. destruct Hf as [Hf|Hf]; [|discriminate Hf]. kidc IHt. kidc IHv. reflexivity.
   - (* PStarred *) intros v IH. cstart. destruct Hf as [Hf|Hf]; [|discriminate Hf]. kidc IH. reflexivity.
   - (* PListComp *) intros e gens IHe IH. cstart. destruct Hf as [Hf|Hf]; [|discriminate Hf]. kidc IHe. cbn [app].
